@@ -62,7 +62,7 @@ pub const SPEC: PropertySpec = PropertySpec {
         "a full provenance coordinate (worldline, tick, commit hash) whose commit hash differs from the recorded commit names history this runtime does not hold: a reading for it is reported as provenance_coordinate_mismatch_served",
         "interpreter rules emit no materialization channels, so RecordedTruth payloads are empty channel lists (filters and ordering are still checked)",
     ],
-    fault_kinds: &[],
+    fault_kinds: &["fault.provenance_lags_runtime"],
 };
 
 #[derive(Clone, Debug, Serialize, Deserialize)]
@@ -80,6 +80,11 @@ pub struct C16 {
     pub world: WorldSpec,
     pub install_query: bool,
     pub ops: Vec<Op>,
+    /// Fault: retained history lags behind the runtime. `Some(k)`: every first ask is also issued
+    /// against the provenance service as it was after the k-th committing pass (0 = before any
+    /// commit), next to the live runtime.
+    #[serde(default)]
+    pub lag_after: Option<u8>,
 }
 
 /// Upper bound on observe calls per run (first asks count twice: every first ask is issued twice in a row).
@@ -293,7 +298,8 @@ impl Scenario for C16 {
         for _ in 0..rng.urange(0, 2) {
             ops.push(Op::Observe(gen_read(rng, n_wl, install_query, avoid, forked_from.is_some())));
         }
-        C16 { world, install_query, ops }
+        let lag_after = if rng.chance(1, 3) { Some(rng.below(3) as u8) } else { None };
+        C16 { world, install_query, ops, lag_after }
     }
 
     fn execute(&self, ctx: &mut RunCtx) -> Outcome {
@@ -531,6 +537,11 @@ struct Exec {
     replayed: BTreeMap<(u8, u64), H>,
     dirty_since_reask: bool,
     nontrivial: bool,
+    /// lagging-history fault: (commit passes to wait for, snapshot once taken)
+    lag_after: Option<u8>,
+    lag: Option<warp_core::ProvenanceService>,
+    lag_taken_at: u8,
+    committing_passes: u8,
 }
 
 fn retention_posture() -> Result<RetentionPosture, String> {
@@ -563,10 +574,73 @@ impl Exec {
             replayed: BTreeMap::new(),
             dirty_since_reask: false,
             nontrivial: false,
+            lag_after: s.lag_after,
+            lag: None,
+            lag_taken_at: 0,
+            committing_passes: 0,
         }
     }
 
+    /// Lagging-history fault: the same request against the live runtime and an older provenance
+    /// service. Unavailable history must be a typed refusal; a reading is only acceptable when it is
+    /// the reading the full history gives.
+    fn ask_lagging(&mut self, read: &Read, full_obs: Option<&Result<ObservationArtifact, ObservationError>>, full_optic: Option<&ObserveOpticResult>, w: &World, ctx: &mut RunCtx, oi: usize) -> Result<(), V> {
+        let Some(lag) = self.lag.clone() else { return Ok(()) };
+        if self.committing_passes <= self.lag_taken_at {
+            return Ok(()); // nothing lags yet
+        }
+        ctx.hit("fault.provenance_lags_runtime");
+        let before_r = fp::compact_fingerprint(&format!("{:?}", w.runtime));
+        let before_p = format!("{lag:?}");
+        match (read, full_obs, full_optic) {
+            (Read::Obs(spec), Some(full), _) => {
+                let req = obs_request(spec);
+                self.reads += 1;
+                let r = kernel::catch(|| ObservationService::observe(&w.runtime, &lag, &w.engine, req.clone())).map_err(|p| ("observe_panicked".to_owned(), format!("lagging history: observe({req:?}) panicked: {p}")))?;
+                match (&r, full) {
+                    (Err(e), _) => ctx.hit(&format!("reach.lagging_refused.{}", err_kind(e))),
+                    (Ok(a), Ok(f)) => {
+                        if let Some(field) = diff_artifact(f, a) {
+                            return Err((format!("reading_of_unavailable_history:{field}"), format!("op#{oi}: {req:?} against a provenance service that lags the runtime answered {a:?}; with the full history: {f:?}")));
+                        }
+                        ctx.hit("reach.lagging_served_same_reading");
+                    }
+                    (Ok(a), Err(e)) => {
+                        return Err(("reading_of_unavailable_history:refused_with_full_history".to_owned(), format!("op#{oi}: {req:?} is refused with the full history ({e:?}) but served against a lagging one: {a:?}")));
+                    }
+                }
+            }
+            (Read::Optic(spec), _, Some(full)) => {
+                let truth = &self.truth;
+                let recorded = |wl: u8, t: u64| truth.fact(wl, t).map(|f| f.commit_hash);
+                let req = optic_request(spec, &recorded);
+                self.reads += 1;
+                let r = kernel::catch(|| ObservationService::observe_optic(&w.runtime, &lag, &w.engine, req.clone())).map_err(|p| ("observe_panicked".to_owned(), format!("lagging history: observe_optic({req:?}) panicked: {p}")))?;
+                match (&r, full) {
+                    (ObserveOpticResult::Obstructed(o), _) => ctx.hit(&format!("reach.lagging_obstructed.{}", obstruction_kind(o.kind))),
+                    (ObserveOpticResult::Reading(a), ObserveOpticResult::Reading(f)) => {
+                        if let Some(field) = diff_optic(f, a, false) {
+                            return Err((format!("reading_of_unavailable_history:optic.{field}"), format!("op#{oi}: {req:?} against a lagging provenance service answered {a:?}; with the full history: {f:?}")));
+                        }
+                        ctx.hit("reach.lagging_served_same_reading");
+                    }
+                    (ObserveOpticResult::Reading(a), ObserveOpticResult::Obstructed(o)) => {
+                        return Err(("reading_of_unavailable_history:optic.refused_with_full_history".to_owned(), format!("op#{oi}: {req:?} is obstructed with the full history ({o:?}) but served against a lagging one: {a:?}")));
+                    }
+                }
+            }
+            _ => {}
+        }
+        if !before_r.diff(&fp::compact_fingerprint(&format!("{:?}", w.runtime))).is_empty() || format!("{lag:?}") != before_p {
+            return Err(("read_mutated_state:lagging".to_owned(), format!("op#{oi}: a read against a lagging provenance service changed the runtime or that service")));
+        }
+        Ok(())
+    }
+
     fn run(&mut self, s: &C16, w: &mut World, ctx: &mut RunCtx) -> Result<(), V> {
+        if self.lag_after == Some(0) {
+            self.lag = Some(w.provenance.clone());
+        }
         for (oi, op) in s.ops.iter().enumerate() {
             match op {
                 Op::Deliver(intent) => {
@@ -584,6 +658,11 @@ impl Exec {
                             ctx.trace_str(&format!("pass {}", records.len()));
                             self.record(&records, w)?;
                             if !records.is_empty() {
+                                self.committing_passes = self.committing_passes.saturating_add(1);
+                                if self.lag.is_none() && self.lag_after == Some(self.committing_passes) {
+                                    self.lag = Some(w.provenance.clone());
+                                    self.lag_taken_at = self.committing_passes;
+                                }
                                 // harness self-check: the fingerprint must notice a commit
                                 let after_pass = take_fp(w);
                                 if let Some(b) = before_pass {
@@ -866,6 +945,7 @@ impl Exec {
                     }
                     Err(e) => ctx.hit(&format!("reach.typed_error.{}", err_kind(e))),
                 }
+                self.ask_lagging(read, Some(&r1), None, w, ctx, oi)?;
                 if matches!(req.coordinate.at, ObservationAt::Tick(_)) && self.room_for(r1.is_ok()) && !self.asked.iter().any(|a| matches!(a, Asked::Obs { req: q, .. } if *q == req)) {
                     self.asked.push(Asked::Obs { req, base: r1.ok(), base_commits: self.commits });
                 }
@@ -905,6 +985,7 @@ impl Exec {
                         None
                     }
                 };
+                self.ask_lagging(read, None, Some(&r1), w, ctx, oi)?;
                 if optic_is_historical(&req) && !unanchored && self.room_for(base.is_some()) && !self.asked.iter().any(|a| matches!(a, Asked::Optic { req: q, .. } if *q == req)) {
                     self.asked.push(Asked::Optic { req, base, base_commits: self.commits });
                 }
